@@ -33,6 +33,11 @@ CHECKS = {
     text="PHashTable and PList driven next to array models; after every op lookups are compared, periodically the whole content (keys/values/lookup_by_value multisets, list walk); "
          "keys from INT_MAX-adjacent, negative, bucket-colliding, NULL, all-ones classes; UBSan/ASan abort = undefined behaviour for some pointer value.",
     note="Trusts the harness models; UB freedom only for executed inputs."),
+ "C17": dict(cat="exploration", ref="§3 C17",
+    technique="differential runtime oracle against the platform's inet_pton/inet_ntop/getaddrinfo on generated texts and native structures; exact-size heap buffers under ASan",
+    text="Generated address texts (structured IPv6 forms, scopes, mutations, boundary IPv4), random native structures with every buffer length 0..size+8 in both directions, "
+         "and all 65536 ports: creation success, every getter, any/loopback, native packing and both round trips are compared with the platform view; ASan catches accesses beyond short buffers.",
+    note="Platform libc is the reference by definition of the property; far out-of-bounds accesses are outside ASan's red zones."),
 }
 
 NOT_YET = {}
